@@ -133,7 +133,12 @@ def collect(ctx: Ctx, profile: str):
         ann = env.annotation(T)
         if union_sigs(T, defs):
             clear_typelib_caches()
-        M = typelib.marshaller(ann)
+        try:
+            M = typelib.marshaller(ann)
+        except Exception as e:      # a type whose marshaller cannot even be built: every value's marshal "raised"
+            exc = e
+            def M(v, _e=exc):
+                raise _e
         vals = []
         for v in values(T, env, rng, 3):
             vals.append(("plain", v))
